@@ -100,9 +100,11 @@ def describe(v, facts=None, depth=0):
 
 
 class Interp:
-    def __init__(self, facts, oracle=None, max_steps=20000, max_depth=5, inline=()):
+    def __init__(self, facts, oracle=None, max_steps=20000, max_depth=5, inline=(), bind=None):
         self.f = facts
         self.inline = set(inline)
+        # trait method path -> the body of its (single) implementation, for calls on a generic Self
+        self.bind = dict(bind or {})
         self.oracle = oracle or (lambda *a: None)
         self.heap = {}
         self.frames = {}
@@ -245,8 +247,23 @@ class Interp:
         if v[0] == "int":
             return str(v[1])
         if depth < 3 and v[0] in ("adt", "tuple"):
-            return describe(v, self.f)
+            return describe(self.resolve(v), self.f)
         return "?"
+
+    def resolve(self, v, depth=0):
+        """copy of `v` with references replaced by what they point to (for naming / rendering)"""
+        if v is None or depth > 5:
+            return v
+        if v[0] == "ref":
+            try:
+                return self.resolve(self.read_loc(v[1]), depth + 1)
+            except KeyError:
+                return TOP
+        if v[0] == "adt":
+            return ("adt", v[1], v[2], {i: self.resolve(x, depth + 1) for i, x in v[3].items()})
+        if v[0] == "tuple":
+            return ("tuple", [self.resolve(x, depth + 1) for x in v[1]])
+        return v
 
     # ------------------------------------------------------------------ execution
     def call_body(self, path, args, depth, closure_val=None):
@@ -263,9 +280,28 @@ class Interp:
         self.frames[fid] = fr
         for i, a in enumerate(args):
             fr[i + 1] = a
-        ret = self.run(body, fid, depth)
-        del self.frames[fid]
+        try:
+            ret = self.run(body, fid, depth)
+            ret = self._escape(ret, fid, 0)
+        finally:
+            self.frames.pop(fid, None)
         return ret
+
+    def _escape(self, val, fid, depth):
+        """a returned value must not point into the frame that is being popped: such locals are moved to the heap"""
+        if val is None or depth > 4:
+            return val
+        k = val[0]
+        if k == "ref" and val[1][0] == "L" and val[1][1] == fid:
+            name = "frame%d.local%d" % (fid, val[1][2])
+            if name not in self.heap:
+                self.heap[name] = self._escape(self.frames[fid].get(val[1][2], TOP), fid, depth + 1)
+            return ("ref", ("H", name, val[1][3]))
+        if k == "adt":
+            return ("adt", val[1], val[2], {i: self._escape(v, fid, depth + 1) for i, v in val[3].items()})
+        if k == "tuple":
+            return ("tuple", [self._escape(v, fid, depth + 1) for v in val[1]])
+        return val
 
     def run(self, body, fid, depth):
         bi = 0
@@ -462,6 +498,8 @@ class Interp:
         path = f.get("path") or ""
         full = f.get("full") or ""
         res_path = f.get("res") or path
+        if res_path in self.bind:
+            res_path = self.bind[res_path]
         ans = self.oracle("call", name, (t, args, self), site)
         if ans is not None:
             self.events.append(("call", name, [self.tokname(a) for a in args], site))
@@ -492,7 +530,8 @@ class Interp:
                 return NONE
             return Adt(RESULT, 1, {0: TOP})
         # --- Option / Result combinators
-        if path.startswith(OPTION) or path.startswith(RESULT) or full.startswith(OPTION) or full.startswith(RESULT):
+        ctx_trait = name in ("context", "with_context") and d0 is not None and d0[0] == "adt" and d0[1] in (OPTION, RESULT)
+        if path.startswith(OPTION) or path.startswith(RESULT) or full.startswith(OPTION) or full.startswith(RESULT) or ctx_trait:
             r = self.option_result(name, d0, a0, args, t, fid, depth, site)
             if r is not NOTHANDLED:
                 return r
@@ -507,6 +546,22 @@ class Interp:
                     self.write_loc(a0[1], Tok("default"))
                     return old
             return TOP
+        if name in ("then", "then_some") and len(args) == 2 and is_int(d0) and "bool" in path + full:
+            if not d0[1]:
+                return NONE
+            if name == "then_some":
+                return Some(args[1])
+            cl = self.deref_val(args[1])
+            if cl is not None and cl[0] == "closure" and cl[1] in self.f.bodies:
+                cb = self.f.bodies[cl[1]]
+                ty1 = cb.locals[1]["ty"] if len(cb.locals) > 1 else ""
+                selfv = cl
+                if ty1.startswith("&"):
+                    nm = "closure#%d" % (len(self.heap) + 1)
+                    self.heap[nm] = cl
+                    selfv = ("ref", ("H", nm, ()))
+                return Some(self.call_body(cl[1], [selfv], depth + 1))
+            return Some(TOP)
         if name in ("not",) and len(args) == 1 and is_int(d0):
             return Int(1 - d0[1])
         # --- comparisons
@@ -535,7 +590,9 @@ class Interp:
                 pick_first = False
             return self.deref_val(args[0]) if pick_first else self.deref_val(args[1])
         # --- transparent conversions
-        if name in ("clone", "to_owned", "cloned", "copied") and len(args) == 1:
+        if name == "index" and len(args) == 2 and "ops::Index" in path + full and "RangeFull" in (full + str(t["a"][1])):
+            return a0 if a0 is not None else TOP   # &x[..] is x
+        if name in ("clone", "to_owned", "cloned", "copied", "to_vec", "as_slice") and len(args) == 1:
             return copy.deepcopy(d0) if d0 is not None else TOP
         if name in ("deref", "deref_mut", "as_ref", "as_mut", "borrow", "borrow_mut") and len(args) == 1:
             if a0 is not None and a0[0] == "ref":
@@ -575,7 +632,8 @@ class Interp:
                     saved_heap, saved_events = copy.deepcopy(self.heap), list(self.events)
                     try:
                         r = self.call_body(p, args, depth + 1)
-                        if self.known(r):
+                        rd = self.deref_val(r) if r is not None and r[0] != "ref" else r
+                        if self.known(r) or (r is not None and r[0] == "adt" and r[1] != "?"):
                             return r
                     except Unsupported:
                         pass
@@ -733,10 +791,11 @@ def field(facts, val, path, name):
     return val[3].get(names.index(name), TOP)
 
 
-def run(facts, path, args, heap=None, oracle=None, inline=()):
+def run(facts, path, args, heap=None, oracle=None, inline=(), bind=None):
     """evaluate body `path`; returns (return value, heap, events) or raises Unsupported.
-    `inline`: body paths that are always inlined, also when all their arguments are opaque"""
-    it = Interp(facts, oracle, inline=inline)
+    `inline`: body paths that are always inlined, also when all their arguments are opaque;
+    `bind`: trait method path -> implementation body path (calls on a generic Self)"""
+    it = Interp(facts, oracle, inline=inline, bind=bind)
     it.heap = dict(heap or {})
     ret = it.call_body(path, args, 0)
     return ret, it.heap, it.events
